@@ -1,4 +1,6 @@
 import Iec.Lemmas.KWindow
+import Iec.Lemmas.Srv104Win
+import Iec.Lemmas.Cli104Win
 import Iec.Model.Srv104
 import Iec.Model.Cli104
 /-
@@ -17,6 +19,10 @@ holds the `len` consecutive numbers base+1 … base+len (mod 32768) and V(S) = b
 `base` is the N(S) of the oldest unacknowledged APDU.  The theorems hold for every
 alignment of the window to the 32767→0 wrap, every occupancy and every k (no bound such as
 k ≤ 32), every N(R) in 0..32767.
+
+History level (second half of the file): `WinInv` is not an assumption about reachable states - it is an invariant of the
+whole server model (`server_never_more_than_k`, `server_ack_validation`; Lemmas/Srv104Win.lean) and of the whole client
+model (`client_window_every_history`; Lemmas/Cli104Win.lean) over every operation list, for 0 < k < 32767.
 -/
 namespace Iec.Props.C04
 open Iec.KWindow
@@ -97,5 +103,123 @@ theorem client_full_refuses (c : Iec.Cli104.Cli) (asdu : List Nat)
     (hfull : isFull (c.maxSent.getD c.p.k) c.win = true) : Iec.Cli104.sendAsdu c asdu = (c, false) := by
   unfold Iec.Cli104.sendAsdu
   simp [hfull]
+
+end Iec.Props.C04
+
+/-! ### every history of the server -/
+namespace Iec.Props.C04
+open Iec.KWindow Iec.Srv104
+
+/-- **never more than k outstanding, in every reachable state**: from a freshly created server (0 < k < 32767), after any
+sequence of ticks (accept, receive, transmit events and replies, acknowledge, time-outs, reaping), enqueues, restarts and
+environment events (octets arriving in any segmentation, peers closing, writes failing, the clock), every connection in
+use holds at most k sent-but-unacknowledged I-format APDUs -/
+theorem server_never_more_than_k (p : Params) (gs : List (String × List (Bool × List Nat))) (hk0 : 0 < p.k) (hk : p.k < 32767)
+    (ops : List WOp) (j : Nat) (hu : ((ops.foldl WOp.apply (create p gs)).conn j).isUsed = true) :
+    ((ops.foldl WOp.apply (create p gs)).conn j).win.length ≤ p.k := by
+  obtain ⟨h, hp⟩ := run_winv p gs hk0 hk ops
+  have := ((h j).2 ((h j).1 hu)).1
+  rwa [hp] at this
+
+/-- the N(S) of the oldest unacknowledged APDU, computed from V(S) and the number of outstanding APDUs -/
+def oldestNS (c : Conn) : Nat := (c.vs + 32768 - c.win.length) % 32768
+
+/-- **acknowledgement validation in every reachable state**: on every running connection in use of every reachable server
+state the hypothesis of `checkSeq_spec` holds, hence a received N(R) is accepted exactly when it lies, modulo 32768, between
+the N(S) of the oldest unacknowledged APDU and V(S) inclusive; acceptance releases exactly the APDUs below it, rejection
+changes nothing -/
+theorem server_ack_validation (p : Params) (gs : List (String × List (Bool × List Nat))) (hk0 : 0 < p.k) (hk : p.k < 32767)
+    (ops : List WOp) (j : Nat) (hu : ((ops.foldl WOp.apply (create p gs)).conn j).isUsed = true)
+    (hr : ((ops.foldl WOp.apply (create p gs)).conn j).isRunning = true) (nr : Nat) (hnr : nr < 32768) :
+    let c := (ops.foldl WOp.apply (create p gs)).conn j
+    WinInv c.vs c.win (oldestNS c) c.win.length ∧
+    ((checkSeq c.vs c.win nr).1 = true ↔ dist (oldestNS c) nr ≤ c.win.length) ∧
+    ((checkSeq c.vs c.win nr).1 = true → (checkSeq c.vs c.win nr).2.1 = c.win.drop (dist (oldestNS c) nr)) ∧
+    ((checkSeq c.vs c.win nr).1 = false → (checkSeq c.vs c.win nr).2.1 = c.win) := by
+  intro c
+  obtain ⟨h, hp⟩ := run_winv p gs hk0 hk ops
+  obtain ⟨base, hb⟩ := ((h j).2 ((h j).1 hu)).2 hr
+  have hbase : base = oldestNS c := by
+    obtain ⟨h1, h2, _, h4⟩ := hb
+    unfold oldestNS
+    show base = (c.vs + 32768 - c.win.length) % 32768
+    have h4' : c.vs = (base + c.win.length) % 32768 := h4
+    have h2' : c.win.length < 32767 := h2
+    omega
+  have hb' : WinInv c.vs c.win (oldestNS c) c.win.length := hbase ▸ hb
+  have sp := checkSeq_spec c.vs c.win (oldestNS c) c.win.length hb' nr hnr
+  exact ⟨hb', sp.1, fun ha => (sp.2.1 ha).1, fun hf => (sp.2.2 hf).1⟩
+
+/-- non-vacuity of the hypotheses: a connection record that is in use, running, with three APDUs outstanding across the
+32767 -> 0 wrap satisfies `Good` for k = 3 (the invariant the history theorem maintains) -/
+def wrapConn : Conn := { isUsed := true, isRunning := true, maxSent := 3, vs := 1, win := [⟨32767, 0, none⟩, ⟨0, 0, none⟩, ⟨1, 0, none⟩] }
+example : Good 3 wrapConn ∧ oldestNS wrapConn = 32766 ∧ isFull 3 wrapConn.win = true :=
+  ⟨⟨by decide, fun _ => ⟨32766, by decide, by decide, by decide, by decide⟩⟩, by decide, by decide⟩
+
+def envPending (sk : Sock) : WEnv where
+  f s := { s with pending := s.pending ++ [sk] }
+  p _ := rfl
+  len _ := rfl
+  conn _ _ := rfl
+
+def envFeed (i : Nat) (bytes : List Nat) : WEnv where
+  f s := s.setConn i { s.conn i with sock := { (s.conn i).sock with chunks := (s.conn i).sock.chunks ++ [bytes] } }
+  p _ := rfl
+  len s := setConn_len _ _ _
+  conn s j := by
+    by_cases hj : j = i
+    · subst hj
+      by_cases hl : j < s.conns.length
+      · rw [conn_setConn _ _ _ hl]
+      · have hs : ∀ c, s.conns.set j c = s.conns := fun c => List.set_eq_of_length_le (Nat.le_of_not_lt hl)
+        have : ∀ c, (s.setConn j c).conn j = s.conn j := by intro c; unfold Slave.conn Slave.setConn; simp only [hs]
+        rw [this]
+    · rw [conn_setConn_ne _ _ _ _ hj]
+
+def demoParams : Params := { k := 2, w := 1, t0 := 10, t1 := 15, t2 := 10, t3 := 20, mode := 0, maxOpen := 0, lowQ := 4, highQ := 4, asduHdr := 6, replies := 0, nSlots := 2 }
+def demoOps : List WOp := [.env (envPending {}), .tick, .env (envFeed 0 [0x68, 4, 7, 0, 0, 0]), .tick, .enqueue [1,1,3,0,1,0,5,0,0,1], .tick, .enqueue [1,1,3,0,1,0,6,0,0,1], .tick, .enqueue [1,1,3,0,1,0,7,0,0,1], .tick]
+/-- non-vacuity on a concrete history: a client connects and sends STARTDT act, three events are enqueued with k = 2 - the
+connection is in use and running, two APDUs are outstanding, the window is full and the third event waits -/
+example : let c := (demoOps.foldl WOp.apply (create demoParams [])).conn 0
+    c.isUsed = true ∧ c.isRunning = true ∧ c.win.map (·.seq) = [1, 2] ∧ c.vs = 2 ∧ isFull c.maxSent c.win = true ∧ oldestNS c = 0 := by
+  decide
+
+end Iec.Props.C04
+
+/-! ### every history of the client -/
+namespace Iec.Props.C04
+open Iec.KWindow Iec.Cli104
+
+/-- **client, never more than k outstanding, and acknowledgement validation in every reachable state**: for a connection
+object created with 0 < k < 32767, after any sequence of connect / thread steps / peer and clock events / sendASDU /
+STARTDT / STOPDT / close, at most k I-format APDUs are outstanding, and a received N(R) is accepted exactly when it lies,
+modulo 32768, between the N(S) of the oldest unacknowledged APDU and V(S) inclusive (then exactly the APDUs below it are
+released), otherwise nothing is released -/
+theorem client_window_every_history (p : Iec.Cli104.Params) (hk0 : 0 < p.k) (hk : p.k < 32767) (ops : List KOp)
+    (nr : Nat) (hnr : nr < 32768) :
+    let c := ops.foldl KOp.apply { p := p }
+    let oldest := (c.vs + 32768 - c.win.length) % 32768
+    c.win.length ≤ p.k ∧
+    WinInv c.vs c.win oldest c.win.length ∧
+    ((checkSeq c.vs c.win nr).1 = true ↔ dist oldest nr ≤ c.win.length) ∧
+    ((checkSeq c.vs c.win nr).1 = true → (checkSeq c.vs c.win nr).2.1 = c.win.drop (dist oldest nr)) ∧
+    ((checkSeq c.vs c.win nr).1 = false → (checkSeq c.vs c.win nr).2.1 = c.win) := by
+  intro c oldest
+  obtain ⟨⟨h1, base, hb⟩, hk'⟩ := run_cgood p hk0 hk ops
+  have hbase : base = oldest := by
+    obtain ⟨b1, b2, _, b4⟩ := hb
+    show base = (c.vs + 32768 - c.win.length) % 32768
+    have b4' : c.vs = (base + c.win.length) % 32768 := b4
+    have b2' : c.win.length < 32767 := b2
+    omega
+  have hb' : WinInv c.vs c.win oldest c.win.length := hbase ▸ hb
+  have sp := checkSeq_spec c.vs c.win oldest c.win.length hb' nr hnr
+  exact ⟨hk' ▸ h1, hb', sp.1, fun ha => (sp.2.1 ha).1, fun hf => (sp.2.2 hf).1⟩
+
+/-- non-vacuity on a concrete history: connect, three sends with k = 2 - two APDUs outstanding, the third refused -/
+def demoCli : Iec.Cli104.Params := { k := 2, w := 1, t0 := 10, t1 := 15, t2 := 10, t3 := 20, asduHdr := 6 }
+def demoCliOps : List KOp := [.connect, .step, .step, .send [100, 1, 6, 0, 1, 0, 0, 0, 0, 20], .send [100, 1, 6, 0, 1, 0, 0, 0, 0, 21], .send [100, 1, 6, 0, 1, 0, 0, 0, 0, 22]]
+example : let c := demoCliOps.foldl KOp.apply { p := demoCli }
+    c.running = true ∧ c.win.map (·.seq) = [1, 2] ∧ c.vs = 2 ∧ (sendAsdu c [1]).2 = false := by decide
 
 end Iec.Props.C04
